@@ -12,27 +12,107 @@ import StorageModel.Filter.Main
 namespace StorageModel.Filter
 open StorageModel
 
+/-- the two kinds of custom symbols -/
+inductive CustomKind where
+  /-- `AddEntitySymbol(sym)`: `Eval` is a function of the row id (`NewBoolFuncSymbol`, `NewStringFuncSymbol`, …) -/
+  | ext
+  /-- `MapSymbol(name, mapper)` on the `entitySymbol` with key `key`: `Eval` = `mapper.Map` of the stored value -/
+  | mapped (key : String) (m : Nat)
+  deriving Repr, DecidableEq
+
 /-- a symbol registered on a store (`AddIdSymbol`, `AddSymbol`/`AddFkSymbol`, `AddSetSymbol`/`AddFkSetSymbol`) -/
 inductive SymDef where
   | id
   | field (ty : NodeType) (linked : Option Nat)      -- entitySymbol; fk when linked
   | set (ty : NodeType) (linked : Option Nat)        -- entitySetSymbolImpl
+  /-- a symbol object of store `owner` that `owner.GrantSymbols(child)` put into this store's table:
+      it keeps its `store` field, so it is evaluated on `owner`'s entity bucket -/
+  | gfield (owner : Nat) (ty : NodeType) (linked : Option Nat)
+  | gset (owner : Nat) (ty : NodeType) (linked : Option Nat)
+  /-- an `EntitySymbol` that is neither an `entitySymbol` nor a set symbol: registered through
+      `AddEntitySymbol` (an `ExternalSymbol`, or any other implementation of the exported interface)
+      or produced by `MapSymbol` (a `symbolMapWrapper`).  `linked` = what its `GetLinkedType()`
+      answers; `owner` = the store it was registered on when it was granted to this one -/
+  | custom (owner : Option Nat) (ty : NodeType) (linked : Option Nat) (k : CustomKind)
+  deriving Repr, DecidableEq
+
+/-- `AddMapSymbol(name, type, key, prefix...)`: an `entityMapSymbol{key, symbolType, prefix}` -/
+structure MapDef where
+  ty : NodeType
+  key : String
+  pfx : List String
+  /-- `some p`: the map symbol object belongs to store `p` (inherited through `GrantSymbols`) -/
+  owner : Option Nat := none
   deriving Repr, DecidableEq
 
 structure StoreDef where
   syms : List (String × SymDef)
-  maps : List (String × NodeType)                    -- AddMapSymbol(name, type, key = name)
+  maps : List (String × MapDef)                      -- store.mapSymbols: name → entityMapSymbol
+  parent : Option Nat := none                        -- StoreDefinition.Parent: a child store
+  extended : Bool := false                           -- Extended()
   deriving Repr
+
+def SymDef.grantedFrom (p : Nat) : SymDef → SymDef
+  | .field ty l => .gfield p ty l
+  | .set ty l => .gset p ty l
+  | .custom o ty l k => .custom (some (o.getD p)) ty l k
+  | d => d                                           -- id symbols ignore their store; granted symbols keep theirs
+
+/-- `parent.GrantSymbols(child)` (`p` = the parent's index): every symbol object of the parent's
+    table is `Put` into the child's table under its name (replacing an entry of that name), every
+    map symbol is stored under its *key* (`inheritMapSymbol`: `mapSymbols[symbol.key] = symbol`) -/
+def grantSymbols (p : Nat) (parent child : StoreDef) : StoreDef :=
+  { child with
+    syms := parent.syms.map (fun e => (e.1, e.2.grantedFrom p)) ++ child.syms
+    maps := parent.maps.map (fun e => (e.2.key, { e.2 with owner := some (e.2.owner.getD p) })) ++ child.maps }
+
+/-- what a key of a (non-set) bbolt bucket holds: a typed value, or a nested bucket (a nested map,
+    or a list — a bucket keyed by the 4-byte indices plus the list-size key, none of which an
+    identifier can spell) -/
+inductive MNode (F : Type) where
+  | val (v : SVal F)
+  | bucket (kids : List (String × MNode F))
 
 structure Entity (F : Type) where
   id : Bytes
   fields : List (String × SVal F)                    -- key → stored value; an absent key reads as nil
   sets : List (String × List (SVal F))               -- key → elements of the sub-bucket, in key order
-  maps : List (String × List (String × SVal F))      -- map key → entries
+  maps : List (String × MNode F)                     -- the other sub-buckets of the entity bucket (tag maps,
+                                                     -- prefix buckets), as a forest: key → node
+
+/-- what an externally computed symbol is made from -/
+inductive ExtSrc (F : Type) where
+  | boolFn (f : Bytes → Bool)                        -- NewBoolFuncSymbol(store, name, f)
+  | strFn (f : Bytes → Option Bytes)                 -- NewStringFuncSymbol(store, name, f); `none` = f returned nil
+  | fn (f : Bytes → SVal F)                          -- any other EntitySymbol: what its Eval returns for a row id
+
+/-- `ExternalSymbol.Eval`: a bool function yields `(TypeBool, [0|1])`; a string function yields
+    `(TypeNil, nil)` for a nil result and `(TypeString, bytes)` otherwise -/
+def ExtSrc.codeVal : ExtSrc F → Bytes → SVal F
+  | .boolFn f, id => .bool (f id)
+  | .strFn f, id => (match f id with | some s => .str s | none => .nil)      -- after fce0761: (TypeNil, nil)
+  | .fn f, id => f id
+
+/-- `ExternalSymbol.Eval` before fce0761 (kept to document the defect): a nil string result was
+    encoded `(TypeString, nil)`, which is the empty string -/
+def ExtSrc.codeValPreFce0761 : ExtSrc F → Bytes → SVal F
+  | .boolFn f, id => .bool (f id)
+  | .strFn f, id => (match f id with | some s => .str s | none => .str [])
+  | .fn f, id => f id
+
+/-- the value the function denotes: a nil result is null -/
+def ExtSrc.specVal : ExtSrc F → Bytes → SVal F
+  | .boolFn f, id => .bool (f id)
+  | .strFn f, id => (match f id with | some s => .str s | none => .nil)
+  | .fn f, id => f id
 
 structure Db (F : Type) where
   defs : List StoreDef
   rows : List (List (Entity F))                      -- rows of store i, in id (bucket key) order
+  /-- the function behind the external symbol `name` registered on store `st` -/
+  ext : Nat → String → ExtSrc F := fun _ _ => .fn fun _ => .nil
+  /-- the `SymbolMapper`s in use: `Map(source, fieldType, value)` on the decoded stored value -/
+  mappers : Nat → SVal F → SVal F := fun _ v => v
 
 variable {F : Type}
 
@@ -41,7 +121,11 @@ inductive Atom where
   | id
   | field (st : Nat) (key : String) (ty : NodeType) (linked : Option Nat)
   | set (st : Nat) (key : String) (ty : NodeType) (linked : Option Nat)
-  | mapElem (st : Nat) (mapKey key : String) (ty : NodeType)
+  /-- the `entitySymbol` that `entityMapSymbol.createElementSymbol` builds: `prefix` = the bucket
+      path below the entity bucket, `key` = the key read there -/
+  | mapElem (st : Nat) (bpath : List String) (key : String) (ty : NodeType)
+  /-- an `ExternalSymbol` / other custom `EntitySymbol` / `symbolMapWrapper` registered as `name` on store `st` -/
+  | custom (st : Nat) (name : String) (ty : NodeType) (linked : Option Nat) (k : CustomKind)
   deriving Repr, DecidableEq
 
 /-- what `GetSymbol` returns -/
@@ -63,11 +147,27 @@ def Atom.ty : Atom → NodeType
   | .field _ _ ty _ => ty
   | .set _ _ ty _ => ty
   | .mapElem _ _ _ ty => ty
+  | .custom _ _ ty _ _ => ty
 
+/-- `GetLinkedType()` -/
 def Atom.linked : Atom → Option Nat
   | .field _ _ _ l => l
   | .set _ _ _ l => l
+  | .custom _ _ _ l _ => l
   | _ => none
+
+/-- implements `iterableEntitySymbol` (has `newQueryPath`): `entitySymbol` and `entitySetSymbolImpl` do;
+    `entityIdSymbol`, `ExternalSymbol` and `symbolMapWrapper` (whose embedded interface promotes only
+    the exported methods) do not -/
+def Atom.iterable : Atom → Bool
+  | .field .. => true
+  | .set .. => true
+  | .mapElem .. => true
+  | _ => false
+
+def Atom.isExt : Atom → Bool
+  | .custom _ _ _ _ .ext => true
+  | _ => false
 
 def RSym.isSet : RSym → Bool
   | .atom a => a.isSet
@@ -93,21 +193,45 @@ def lookupSym (defs : List StoreDef) (st : Nat) (n : String) : Option Atom :=
     | some .id => some .id
     | some (.field ty l) => some (.field st n ty l)
     | some (.set ty l) => some (.set st n ty l)
+    | some (.gfield o ty l) => some (.field o n ty l)
+    | some (.gset o ty l) => some (.set o n ty l)
+    | some (.custom o ty l k) => some (.custom (o.getD st) n ty l k)
     | none => none
 
-/-- `createCompositeEntitySymbol(name, first, rest)` (after 0441eb9: the links of a non-set chain
-    are walked one by one, so every chain is fully iterable and the `cursorLastF = last.Eval` case,
-    still present in the code and in `modelElems`, is no longer produced) -/
+/-- the set branches of `createCompositeEntitySymbol` on the assembled `chain` (one of its symbols
+    is a set): `iterable` = the symbols that implement `iterableEntitySymbol`, in order; when all of
+    them do (or the last one is a set) the cursor's key is the element, otherwise
+    `cursorLastF = last.Eval` -/
+def composeSet (chain : List Atom) (ty : NodeType) : RSym :=
+  let iter := chain.filter Atom.iterable
+  match chain.getLast? with
+  | some last =>
+    if iter.length == chain.length || last.isSet then .compSet iter [] ty
+    else .compSet iter [last] ty
+  | none => .compSet iter [] ty
+
+/-- `createCompositeEntitySymbol(name, first, rest)`.  After 0441eb9 the links of a non-set chain
+    are walked one by one; a chain keeps a non-iterable tail only when its last symbol is a custom
+    one (`ExternalSymbol`, `symbolMapWrapper`).  After 5f6f9bb `getChain()` of a composite set symbol
+    returns the iterable part and that tail. -/
 def compose (first : Atom) (rest : RSym) : RSym :=
   match rest with
   | .atom .id => .atom first                                  -- "strip ids, since they are redundant"
   | .atom a =>
     if !first.isSet && !a.isSet then .nonSetComp [first, a] a.ty
-    else .compSet [first, a] [] a.ty
+    else composeSet [first, a] a.ty
   | .nonSetComp chain ty =>
     if !first.isSet then .nonSetComp (first :: chain) ty
-    else .compSet (first :: chain) [] ty                       -- chain = first ++ nsc.chain, all iterable
-  | .compSet iter _ ty => .compSet (first :: iter) [] ty       -- getChain() = the iterable chain
+    else composeSet (first :: chain) ty                        -- chain = first ++ nsc.chain
+  | .compSet iter last ty => composeSet (first :: (iter ++ last)) ty  -- chain = first ++ ces.getChain() (after 5f6f9bb:
+                                                                     --   the iterable part and the tail)
+
+/-- `createCompositeEntitySymbol` before 5f6f9bb (kept to document the defect): `getChain()` of a
+    composite set symbol returned the iterable part alone, so the tail was lost -/
+def composePre5f6f9bb (first : Atom) (rest : RSym) : RSym :=
+  match rest with
+  | .compSet iter _ ty => composeSet (first :: iter) ty
+  | rest => compose first rest
 
 /-- `createCompositeEntitySymbol` as it was before 0441eb9 (kept to document the defect): a non-set
     chain behind a set stayed a non-iterable tail evaluated through `cursorLastF`, and `getChain()`
@@ -123,6 +247,16 @@ def composePre0441eb9 (first : Atom) (rest : RSym) : RSym :=
     else .compSet [first] chain ty
   | .compSet iter _ ty => .compSet (first :: iter) [] ty
 
+/-- `parts[1:len(parts)-1]` and `parts[len(parts)-1]` of `parts = p :: q :: rest` -/
+def splitLast : String → List String → List String × String
+  | q, [] => ([], q)
+  | q, r :: rs => (q :: (splitLast r rs).1, (splitLast r rs).2)
+
+/-- `entityMapSymbol.createElementSymbol(name, parts)` with `parts = mapName :: q :: rest`:
+    prefix = self.prefix ++ [self.key] ++ parts[1:len-1], key = parts[len-1] -/
+def elementSymbol (st : Nat) (md : MapDef) (q : String) (rest : List String) : Atom :=
+  .mapElem (md.owner.getD st) (md.pfx ++ [md.key] ++ (splitLast q rest).1) (splitLast q rest).2 md.ty
+
 /-- `BaseStore.GetSymbol` on the dot-separated parts of a name -/
 def resolve (defs : List StoreDef) : Nat → List String → Option RSym
   | _, [] => none
@@ -132,10 +266,7 @@ def resolve (defs : List StoreDef) : Nat → List String → Option RSym
     | none => none
     | some d =>
       match d.maps.lookup p with
-      | some ty =>
-        -- entityMapSymbol.createElementSymbol: key = last part (middle parts name nested buckets,
-        -- which the model does not cover: only `map.key` is resolved)
-        if rest.isEmpty then some (.atom (.mapElem st p q ty)) else none
+      | some md => some (.atom (elementSymbol st md q rest))
       | none =>
         match lookupSym defs st p with
         | some first =>
@@ -143,7 +274,30 @@ def resolve (defs : List StoreDef) : Nat → List String → Option RSym
            | some st' =>
              (match first with
               | .id => none
+              | .custom .. => none                  -- not a `linkedEntitySymbol`
               | _ => (resolve defs st' (q :: rest)).map (compose first))
+           | none => none)
+        | none => none
+
+/-- `GetSymbol` with the pre-5f6f9bb composition (documentation only) -/
+def resolvePre5f6f9bb (defs : List StoreDef) : Nat → List String → Option RSym
+  | _, [] => none
+  | st, [p] => (lookupSym defs st p).map .atom
+  | st, p :: q :: rest =>
+    match defs[st]? with
+    | none => none
+    | some d =>
+      match d.maps.lookup p with
+      | some md => some (.atom (elementSymbol st md q rest))
+      | none =>
+        match lookupSym defs st p with
+        | some first =>
+          (match first.linked with
+           | some st' =>
+             (match first with
+              | .id => none
+              | .custom .. => none
+              | _ => (resolvePre5f6f9bb defs st' (q :: rest)).map (composePre5f6f9bb first))
            | none => none)
         | none => none
 
@@ -156,10 +310,7 @@ def resolvePre0441eb9 (defs : List StoreDef) : Nat → List String → Option RS
     | none => none
     | some d =>
       match d.maps.lookup p with
-      | some ty =>
-        -- entityMapSymbol.createElementSymbol: key = last part (middle parts name nested buckets,
-        -- which the model does not cover: only `map.key` is resolved)
-        if rest.isEmpty then some (.atom (.mapElem st p q ty)) else none
+      | some md => some (.atom (elementSymbol st md q rest))
       | none =>
         match lookupSym defs st p with
         | some first =>
@@ -167,6 +318,7 @@ def resolvePre0441eb9 (defs : List StoreDef) : Nat → List String → Option RS
            | some st' =>
              (match first with
               | .id => none
+              | .custom .. => none
               | _ => (resolvePre0441eb9 defs st' (q :: rest)).map (composePre0441eb9 first))
            | none => none)
         | none => none
@@ -186,7 +338,14 @@ def dbSigma (defs : List StoreDef) : Sigma Nat where
 /-! ### dotted names by path semantics (the specification's reading, independent of `compose`)
 
   A dotted name follows links: `p.q.r` on store `st` is symbol `p` of `st`, then `q.r` on the store
-  `p` links to.  `x.id` is `x` itself; `m.k` for a map symbol `m` is its element `k`. -/
+  `p` links to.  `x.id` is `x` itself; for a map symbol `m` (the bucket `m.prefix/m.key` of the
+  entity) `m.x₁.….xₙ` is the node reached from that bucket along `x₁ … xₙ`. -/
+
+/-- the node `m.x₁.….xₙ` names, as a full bucket path below the entity: everything but the last
+    segment names buckets, the last segment the key -/
+def mapElemPath (st : Nat) (md : MapDef) (segs : List String) : Atom :=
+  let full := md.pfx ++ [md.key] ++ segs
+  .mapElem (md.owner.getD st) full.dropLast (full.getLast?.getD "") md.ty
 
 def specPath (defs : List StoreDef) : Nat → List String → Option (List Atom)
   | _, [] => none
@@ -196,7 +355,7 @@ def specPath (defs : List StoreDef) : Nat → List String → Option (List Atom)
     | none => none
     | some d =>
       match d.maps.lookup p with
-      | some ty => if rest.isEmpty then some [.mapElem st p q ty] else none
+      | some md => some [mapElemPath st md (q :: rest)]
       | none =>
         match lookupSym defs st p with
         | some first =>
@@ -204,6 +363,7 @@ def specPath (defs : List StoreDef) : Nat → List String → Option (List Atom)
            | some st' =>
              (match first with
               | .id => none
+              | .custom .. => none                  -- only fk fields and link sets are followed
               | _ => (specPath defs st' (q :: rest)).map fun tail =>
                   if tail = [Atom.id] then [first] else first :: tail)
            | none => none)
@@ -211,7 +371,14 @@ def specPath (defs : List StoreDef) : Nat → List String → Option (List Atom)
 
 def pathIsSet (p : List Atom) : Bool := p.any Atom.isSet
 def pathTy (p : List Atom) : NodeType := (p.getLast?.map Atom.ty).getD .other
-def pathLinked (p : List Atom) : Option Nat := p.getLast?.bind Atom.linked
+/-- the entity type a symbol links to, by the specification: only fk fields and link sets are links
+    (a mapped fk field is a value; it cannot be followed either) -/
+def Atom.specLinked : Atom → Option Nat
+  | .field _ _ _ l => l
+  | .set _ _ _ l => l
+  | _ => none
+
+def pathLinked (p : List Atom) : Option Nat := p.getLast?.bind Atom.specLinked
 
 /-- the symbol tables of the specification -/
 def dbSpecSigma (defs : List StoreDef) : Sigma Nat where
@@ -231,6 +398,21 @@ def linkKey : SVal F → Option Bytes
   | .str s => some s
   | _ => none
 
+/-- `TypedBucket.GetPath(path...)` from a bucket with the entries `kids`: `GetBucket` per element,
+    nil as soon as a key is absent or holds a value -/
+def getPath : List (String × MNode F) → List String → Option (List (String × MNode F))
+  | kids, [] => some kids
+  | kids, p :: ps =>
+    match kids.lookup p with
+    | some (.bucket kids') => getPath kids' ps
+    | _ => none
+
+/-- `TypedBucket.getTyped(name)`: `bucket.Get` is nil for an absent key and for a nested bucket -/
+def getTyped (kids : List (String × MNode F)) (k : String) : SVal F :=
+  match kids.lookup k with
+  | some (.val v) => v
+  | _ => .nil
+
 /-- `entitySymbol.Eval` / `entityIdSymbol.Eval` on the entity with key `key` (`none` = nil key) -/
 def evalAtom (db : Db F) (a : Atom) (key : Option Bytes) : SVal F :=
   match a with
@@ -239,17 +421,52 @@ def evalAtom (db : Db F) (a : Atom) (key : Option Bytes) : SVal F :=
     (match key.bind (findEntity db st) with
      | some e => (e.fields.lookup k).getD .nil
      | none => .nil)
-  | .mapElem st mk k _ =>
+  | .mapElem st bp k _ =>
+    -- getBucketF = entityBucket.GetPath(prefix...), then getTyped(key)
     (match key.bind (findEntity db st) with
-     | some e => (match e.maps.lookup mk with | some m => (m.lookup k).getD .nil | none => .nil)
+     | some e => (match getPath e.maps bp with | some b => getTyped b k | none => .nil)
      | none => .nil)
   | .set .. => .nil                                    -- entitySetSymbolImpl.Eval returns (0, nil)
+  | .custom st n _ _ .ext =>
+    -- ExternalSymbol.Eval: `f(string(rowId))`, whatever the row id is (a nil row id is "")
+    (db.ext st n).codeVal (key.getD [])
+  | .custom st _ _ _ (.mapped k m) =>
+    -- symbolMapWrapper.Eval: the wrapped entitySymbol's Eval, then mapper.Map
+    db.mappers m (match key.bind (findEntity db st) with
+                  | some e => (e.fields.lookup k).getD .nil
+                  | none => .nil)
 
 /-- `nonSetCompositeEntitySymbol.Eval`: each link is evaluated on the value of the previous one -/
 def evalChain (db : Db F) : List Atom → Option Bytes → SVal F
   | [], key => (match key with | some k => .str k | none => .nil)
   | [a], key => evalAtom db a key
   | a :: rest, key => evalChain db rest (linkKey (evalAtom db a key))
+
+/-! #### child stores
+
+  A child store keeps its data in a sub-bucket of the parent's entity bucket: `rows[st]` of a child
+  store lists the entities that have that sub-bucket, with the child's own fields / sets / maps;
+  `GetEntitiesBucket` of a child store is its parent's. -/
+
+/-- the store whose entities bucket `GetEntitiesBucket` returns (`fuel` bounds the parent chain) -/
+def rootOf (defs : List StoreDef) : Nat → Nat → Nat
+  | 0, st => st
+  | fuel + 1, st =>
+    match (defs[st]?).bind (·.parent) with
+    | some p => rootOf defs fuel p
+    | none => st
+
+/-- `IsChildStore()` -/
+def isChild (defs : List StoreDef) (st : Nat) : Bool := ((defs[st]?).bind (·.parent)).isSome
+/-- `IsExtended()` -/
+def isExtended (defs : List StoreDef) (st : Nat) : Bool := ((defs[st]?).map (·.extended)).getD false
+/-- `IsEntityPresent(tx, id)`: `GetEntityBucket(tx, id) != nil` -/
+def present (db : Db F) (st : Nat) (id : Bytes) : Bool := (findEntity db st id).isSome
+
+/-- the rule of `uniqueIndexScanner.Next` / `nextUnpaged` (and of the sorting scanner):
+    `IsChildStore() && !IsEntityPresent(tx, id) && !IsExtended()` ⇒ the row is skipped -/
+def skipped (db : Db F) (st : Nat) (id : Bytes) : Bool :=
+  isChild db.defs st && !present db st id && !isExtended db.defs st
 
 /-- the typed keys one level of the stacked cursor yields for the entity `key`:
     the set's bucket (`fkSetQueryPath`) or the single field value (`fkQueryPath`) -/
@@ -328,10 +545,17 @@ def cursorRowsOf (linked : Option Nat) (es : List (SVal F)) : List Ctx :=
   | some st' => es.map fun v => (st', linkKey v)
   | none => []
 
-/-- the rows of a sub-query by path semantics: the linked entities; a null link contributes no row -/
-def subRowsOf (linked : Option Nat) (es : List (SVal F)) : List Ctx :=
+/-- `id` names an entity of store `st`: for a child store that is not declared extended, only an
+    entity that has child data -/
+def isEntityOf (db : Db F) (st : Nat) (id : Bytes) : Bool :=
+  !(isChild db.defs st && !isExtended db.defs st) || present db st id
+
+/-- the rows of a sub-query by path semantics: the linked entities of the linked store; a null
+    link contributes no row, nor does a link to a parent entity without child data when the linked
+    store is a (not extended) child store -/
+def subRowsOf (db : Db F) (linked : Option Nat) (es : List (SVal F)) : List Ctx :=
   match linked with
-  | some st' => es.filterMap fun v => (linkKey v).map fun k => (st', some k)
+  | some st' => es.filterMap fun v => (linkKey v).bind fun k => if isEntityOf db st' k then some (st', some k) else none
   | none => []
 
 def modelWorld (db : Db F) : World Ctx F where
@@ -347,18 +571,84 @@ def modelWorld (db : Db F) : World Ctx F where
   subRows c n := match resolve db.defs c.1 (splitName n) with
     | some r => cursorRowsOf r.linked (cursorKeys db r c.2)
     | none => []
-  nilRow c := c.2.isNone
+  -- `scanner.current == nil`, or the child-store presence rule
+  nilRow c := match c.2 with
+    | none => true
+    | some id => skipped db c.1 id
+
+/-! #### what a path denotes on the stored data (the specification's reading; no `GetPath` /
+  `getTyped` split, no cursors)
+
+  The sub-buckets of an entity form a tree.  A path names a node by uniform descent; the value of a
+  map element is the value stored at its node, null when the node is missing at some level or is
+  itself a map or a list. -/
+
+/-- the node a non-empty path leads to in a forest -/
+def nodeAt : List (String × MNode F) → List String → Option (MNode F)
+  | _, [] => none
+  | kids, [p] => kids.lookup p
+  | kids, p :: q :: ps =>
+    match kids.lookup p with
+    | some (.bucket kids') => nodeAt kids' (q :: ps)
+    | _ => none
+
+def leafVal : Option (MNode F) → SVal F
+  | some (.val v) => v
+  | _ => .nil
+
+/-- the value of one link / field / map element of the entity `key` -/
+def specAtomVal (db : Db F) (a : Atom) (key : Option Bytes) : SVal F :=
+  match a with
+  | .id => (match key with | some k => .str k | none => .str [])
+  | .field st k _ _ =>
+    (match key.bind (findEntity db st) with
+     | some e => (e.fields.lookup k).getD .nil
+     | none => .nil)
+  | .mapElem st bp k _ =>
+    (match key.bind (findEntity db st) with
+     | some e => leafVal (nodeAt e.maps (bp ++ [k]))
+     | none => .nil)
+  | .set .. => .nil
+  | .custom st n _ _ .ext =>
+    -- an externally computed value exists for an entity; a null link leads to none
+    (match key with
+     | some id => (db.ext st n).specVal id
+     | none => .nil)
+  | .custom st _ _ _ (.mapped k m) =>
+    db.mappers m (match key.bind (findEntity db st) with
+                  | some e => (e.fields.lookup k).getD .nil
+                  | none => .nil)
+
+/-- the value of a set-free path: follow the links -/
+def specChain (db : Db F) : List Atom → Option Bytes → SVal F
+  | [], key => (match key with | some k => .str k | none => .nil)
+  | [a], key => specAtomVal db a key
+  | a :: rest, key => specChain db rest (linkKey (specAtomVal db a key))
+
+def specLevel (db : Db F) (a : Atom) (key : Option Bytes) : List (SVal F) :=
+  match a with
+  | .set st k _ _ =>
+    (match key.bind (findEntity db st) with
+     | some e => (e.sets.lookup k).getD []
+     | none => [])
+  | a => [specAtomVal db a key]
+
+/-- the elements of a path through sets: follow every link, collect -/
+def specElems (db : Db F) : List Atom → Option Bytes → List (SVal F)
+  | [], _ => []
+  | [a], key => specLevel db a key
+  | a :: rest, key => (specLevel db a key).flatMap fun v => specElems db rest (linkKey v)
 
 def specWorld (db : Db F) : World Ctx F where
   val c n := match specPath db.defs c.1 (splitName n) with
-    | some p => if pathIsSet p then .nil else evalChain db p c.2
+    | some p => if pathIsSet p then .nil else specChain db p c.2
     | none => .nil
   elems c n := match specPath db.defs c.1 (splitName n) with
-    | some p => if pathIsSet p then pathElems db p c.2 else []
+    | some p => if pathIsSet p then specElems db p c.2 else []
     | none => []
   seekable _ _ := false
   subRows c n := match specPath db.defs c.1 (splitName n) with
-    | some p => if pathIsSet p then subRowsOf (pathLinked p) (pathElems db p c.2) else []
+    | some p => if pathIsSet p then subRowsOf db (pathLinked p) (specElems db p c.2) else []
     | none => []
   nilRow _ := false
 
@@ -367,63 +657,63 @@ def storeIds (db : Db F) (st : Nat) : List Bytes :=
   | some rows => rows.map (·.id)
   | none => []
 
-/-- `Store.QueryIds(tx, filter)` without sort / paging clauses: parse result → scan the entity
-    bucket in key order, keep the ids whose row satisfies the typed predicate -/
+/-- the keys of `store.GetEntitiesBucket(tx)`: for a child store, its parent's entities -/
+def scanIds (db : Db F) (st : Nat) : List Bytes := storeIds db (rootOf db.defs db.defs.length st)
+
+/-- `Store.QueryIds(tx, filter)` without sort / paging clauses: parse result → scan the entities
+    bucket in key order (`nextUnpaged`: skip by the child-store rule), keep the ids whose row
+    satisfies the typed predicate -/
 def query (db : Db F) (fo : FloatOps F) (st : Nat) (f : U F) : Outcome (List Bytes) :=
   match typeCheck (dbSigma db.defs) fo st f with
-  | .ok p => .ok ((storeIds db st).filter fun id => evalRow (modelWorld db) fo (st, some id) p)
+  | .ok p => .ok ((scanIds db st).filter fun id => !skipped db st id && evalRow (modelWorld db) fo (st, some id) p)
   | .err => .err
   | .panic => .panic
 
+/-- the entities of a store: its rows; a child store declared extended shows every entity of its
+    parent (those without child data with null child fields) -/
+def entitiesOf (db : Db F) (st : Nat) : List Bytes :=
+  if isChild db.defs st && isExtended db.defs st then scanIds db st else storeIds db st
+
 /-- the specification of a query -/
 def specQuery (db : Db F) (fo : FloatOps F) (st : Nat) (f : U F) : List Bytes :=
-  (storeIds db st).filter fun id => sat (dbSpecSigma db.defs) (specWorld db) fo st (st, some id) f
+  (entitiesOf db st).filter fun id => sat (dbSpecSigma db.defs) (specWorld db) fo st (st, some id) f
 
 /-! ### hypotheses of `query_exact` -/
+
+/-- the primitive symbols a resolved symbol is made of, in order -/
+def RSym.atoms : RSym → List Atom
+  | .atom a => [a]
+  | .nonSetComp ch _ => ch
+  | .compSet iter last _ => iter ++ last
+
+/-- an externally computed symbol is used by its own name only, not behind links (where the code
+    evaluates its function on the empty id when the link is null) -/
+def RSym.extDirect : RSym → Bool
+  | .atom _ => true
+  | r => r.atoms.all fun a => !a.isExt
 
 def RSym.hasTail : RSym → Bool
   | .compSet _ (_ :: _) _ => true
   | _ => false
 
-/-- The resolution of the name never composes a link onto a composite set symbol that carries a
-    non-iterable tail (`getChain()` drops that tail): true of every name with at most three
-    segments, and of longer ones unless a set.link.link… suffix is prefixed by further links
-    (`boss.groups.boss.label`). -/
-def regularParts (defs : List StoreDef) : Nat → List String → Bool
-  | _, [] => true
-  | _, [_] => true
-  | st, p :: q :: rest =>
-    match defs[st]? with
-    | none => true
-    | some d =>
-      match d.maps.lookup p with
-      | some _ => true
-      | none =>
-        match lookupSym defs st p with
-        | some first =>
-          (match first.linked with
-           | some st' =>
-             regularParts defs st' (q :: rest) &&
-               (match resolve defs st' (q :: rest) with
-                | some r => !r.hasTail
-                | none => true)
-           | none => true)
-        | none => true
-
-/-- the name resolves regularly and, when `sub` (it is the symbol of a sub-query), to a symbol whose
-    cursor keys are its elements (no non-iterable tail) -/
+/-- the provisos on a name: when `sub` (it is the symbol of a sub-query) the resolved symbol's cursor
+    keys are its elements (no non-iterable tail: a `set.custom` symbol — by the specification such a
+    symbol is not a set of links, so a sub-query over it is not well-typed anyway); external functions
+    are used by their own name only -/
 def nameOK (defs : List StoreDef) (sub : Bool) (t : Nat) (n : String) : Bool :=
-  regularParts defs t (splitName n) &&
-    (!sub || (match resolve defs t (splitName n) with
-              | some r => !r.hasTail
-              | none => true))
+  (!sub || (match resolve defs t (splitName n) with
+            | some r => !r.hasTail
+            | none => true)) &&
+    (match resolve defs t (splitName n) with
+     | some r => r.extDirect
+     | none => true)
 
 /-- every symbol of the filter resolves regularly, and every symbol a sub-query ranges over has a
     plain cursor -/
 def namesOK (defs : List StoreDef) : Nat → U F → Bool
   | t, .sym n => nameOK defs false t n
   | t, .setFn _ n => nameOK defs false t n
-  | t, .setFnSub _ n q _ _ =>
+  | t, .setFnSub _ n q _ _ _ =>
     nameOK defs true t n &&
       (match (dbSigma defs).setTypes t n with
        | some t' => namesOK defs t' q
@@ -436,9 +726,47 @@ def namesOK (defs : List StoreDef) : Nat → U F → Bool
   | t, .unot e => namesOK defs t e
   | t, .logic _ l r => namesOK defs t l && namesOK defs t r
 
+/-! ### the one proviso left: external functions are used by their own name (stated on the path) -/
+
+def noExt (p : List Atom) : Bool := p.all fun a => !a.isExt
+
+/-- an external function is not evaluated behind a link or a set -/
+def pathExtOK (p : List Atom) : Bool := decide (p.length ≤ 1) || noExt p
+
+def extNameOK (defs : List StoreDef) (t : Nat) (n : String) : Bool :=
+  match specPath defs t (splitName n) with
+  | some p => pathExtOK p
+  | none => true
+
+/-- every symbol name of the filter satisfies `extNameOK` (sub-queries: in the linked store's table) -/
+def extNamesOK (defs : List StoreDef) : Nat → U F → Bool
+  | t, .sym n => extNameOK defs t n
+  | t, .setFn _ n => extNameOK defs t n
+  | t, .setFnSub _ n q _ _ _ =>
+    extNameOK defs t n &&
+      (match (dbSpecSigma defs).setTypes t n with
+       | some t' => extNamesOK defs t' q
+       | none => true)
+  | _, .boolC _ => true
+  | t, .cmp _ l _ => extNamesOK defs t l
+  | t, .inArr l _ => extNamesOK defs t l
+  | t, .between l _ _ => extNamesOK defs t l
+  | t, .notE e => extNamesOK defs t e
+  | t, .unot e => extNamesOK defs t e
+  | t, .logic _ l r => extNamesOK defs t l && extNamesOK defs t r
+
 /-- set sub-buckets hold strictly increasing string keys (true of every bbolt bucket written by
     `SetStringList` / link collections) -/
 def WellFormedDb (db : Db F) : Prop :=
   ∀ st id e, findEntity db st id = some e → ∀ k es, e.sets.lookup k = some es → SortedStrs es
+
+/-- no store registers a custom symbol (external / mapped) -/
+def PlainDefs (defs : List StoreDef) : Prop :=
+  ∀ (st : Nat) (d : StoreDef), defs[st]? = some d → ∀ n o ty l k, d.syms.lookup n ≠ some (SymDef.custom o ty l k)
+
+/-- child data lives inside the parent's entity bucket: the rows of a child store are those
+    entities of its entities bucket that have child data, in that bucket's order -/
+def ChildRowsNested (db : Db F) : Prop :=
+  ∀ st, isChild db.defs st = true → storeIds db st = (scanIds db st).filter (present db st)
 
 end StorageModel.Filter
